@@ -23,6 +23,7 @@ struct Inv {
 	argv: Vec<String>,
 	env: BTreeMap<String, String>,
 	stdout: Option<String>,
+	stderr: Option<String>,
 	stdin_piped: bool,
 }
 
@@ -42,6 +43,7 @@ fn invocations(w: &World) -> Vec<Inv> {
 					argv: rec.argv.clone(),
 					env: rec.env.clone(),
 					stdout: rec.stdout.clone(),
+					stderr: rec.stderr.clone(),
 					stdin_piped: rec.stdin_piped,
 				});
 			}
@@ -197,22 +199,23 @@ impl<'a> Ctx<'a> {
 				}
 				rep.probe("c10.stdin_checked", 1);
 			}
-			if let Some(t) = &h.stdout {
-				let want_out = t.replace(
-					super::super::plan::SCRATCH,
-					&self.w.scratch.to_string_lossy(),
-				);
-				if inv.stdout.as_deref() != Some(want_out.as_str()) {
-					rep.add(Violation::new(
-						"C10",
-						"hook_stdout",
-						"",
-						what,
-						format!(
-							"hook {}: stdout {:?}, expected {:?}",
-							h.name, inv.stdout, want_out
-						),
-					));
+			// stdout / stderr paths are templates too (the generated ones name an environment variable)
+			for (which, tmpl, got) in [("stdout", &h.stdout, &inv.stdout), ("stderr", &h.stderr, &inv.stderr)] {
+				if let Some(t) = tmpl {
+					let want_out = t
+						.replace(super::super::plan::SCRATCH, &self.w.scratch.to_string_lossy())
+						.replace("{{ env.VK0 }}", &env.get("VK0").cloned().unwrap_or_default())
+						.replace("{{ env.VK1 }}", &env.get("VK1").cloned().unwrap_or_default());
+					if got.as_deref() != Some(want_out.as_str()) {
+						rep.add(Violation::new(
+							"C10",
+							"hook_stdout",
+							which,
+							what,
+							format!("hook {}: {} {:?}, expected {:?}", h.name, which, got, want_out),
+						));
+					}
+					rep.probe("c10.output_paths_checked", 1);
 				}
 			}
 			k += 1;
@@ -795,7 +798,12 @@ pub fn check(r: &RunResult, rep: &mut Report) {
 				&& hook_arg(av, "certificate_path") == Some(crt.as_str())
 				&& hook_arg(av, "private_key_path") == Some(pk.as_str())
 				&& hook_arg(av, "is_success")
-					== Some(if a.ok == Some(true) { "true" } else { "false" });
+					== Some(if a.ok == Some(true) { "true" } else { "false" })
+				// `status`: "success", or the error text of the failed step (its wording is C07's matter)
+				&& match a.ok {
+					Some(true) => hook_arg(av, "status") == Some("success"),
+					_ => hook_arg(av, "status").map(|s| !s.is_empty() && s != "success").unwrap_or(false),
+				};
 			if !ok {
 				rep.add(Violation::new(
 					"C10",
